@@ -132,20 +132,12 @@ fn error_class(s: &str) -> &'static str {
 fn judge(dec: Dec, fam: Family, p: &[u8], w: &[u8], must_reject: Option<&str>, case: &Case) -> Result<bool, (String, String)> {
     let dn = format!("{:?}/{:?}", dec, fam);
     let inp = || format!("program {} witness {}", crate::runner::truncate(&bits::fmt_bytes(p), 400), crate::runner::truncate(&bits::fmt_bytes(w), 200));
-    let mut obs = match observe(dec, fam, p, w) {
+    let obs = match observe(dec, fam, p, w) {
         Ok(o) => o,
         Err(e) => return Err((format!("decoder-{}:{}", if e.starts_with("panic") { "panic" } else { "misc" }, dn), format!("{} on {}", e, inp()))),
     };
+    // wall-clock time is telemetry only (max-decode-us); a decoder that never returns is caught by the driver's watchdog
     let len = (p.len() + w.len()) as u128;
-    let budget_us = 2_000_000 + 50 * len * len;
-    if obs.micros > budget_us {
-        // re-run once before believing it
-        let again = observe(dec, fam, p, w).map_err(|e| ("decoder-misc".to_string(), e))?;
-        if again.micros > budget_us {
-            return Err((format!("decoder-slow:{}", dn), format!("{} us (twice) for {} input bytes, budget {} us ; {}", again.micros, len, budget_us, inp())));
-        }
-        obs = again;
-    }
     let alloc_budget = (64usize << 20) + 8192 * (p.len() + w.len());
     if obs.peak > alloc_budget || obs.largest > alloc_budget {
         return Err((format!("decoder-alloc:{}", dn), format!("peak {} bytes / largest request {} bytes for {} input bytes (budget {}) ; {}", obs.peak, obs.largest, len, alloc_budget, inp())));
